@@ -14,10 +14,13 @@ import socket as real_socket
 from mc import sched
 
 NET = {}
+EVENTS = []  # environment-level observations of the execution in progress (e.g. a reader spinning on a closed connection)
+EOF_SPIN_LIMIT = 300
 
 
 def reset():
     NET.clear()
+    del EVENTS[:]
 
 
 class Pipe(object):
@@ -117,6 +120,12 @@ class FSock(object):
             raise OSError(errno.ENOTCONN, "not connected")
         if not p.buf and not p.closed:
             sched.S.block(lambda: p.buf or p.closed, None, "recv")
+        if not p.buf:
+            # end of stream: a reader that keeps asking would spin forever without ever yielding
+            self.eof_reads = getattr(self, "eof_reads", 0) + 1
+            if self.eof_reads > EOF_SPIN_LIMIT:
+                EVENTS.append("reader-spins-on-end-of-stream")
+                raise OSError(errno.EIO, "verification harness: %d reads after end of stream" % self.eof_reads)
         n = min(len(b), len(p.buf))
         b[:n] = p.buf[:n]
         del p.buf[:n]
